@@ -402,4 +402,3 @@ Proof.
   destruct (work_establishes_obligations _ _ _ I0 H) as (_ & RE & _). rewrite RE in RW. cbn [app] in RW.
   destruct (RW c Hc d Hd) as [Q|Q]; [left; exact Q|right]. apply in_map_iff in Q. destruct Q as (c' & E & I'). exists c'. split; assumption.
 Qed.
-Print Assumptions generated_targets_resolve.
